@@ -619,7 +619,7 @@ func c03scenarios(thorough bool) []c03scn {
 
 func c03params(thorough bool) []c03param {
 	var out []c03param
-	maxK, maxN := 3, 3
+	maxK, maxN := 2, 3
 	if thorough {
 		maxK, maxN = 4, 3
 	}
@@ -687,9 +687,9 @@ func c03reset() {
 	obioptions.SetBatchSize(2)
 }
 
-func c03run(r *verifkit.Result, p c03param, bound int, delay bool, maxExec int64) {
-	cfg := vsched.Config{Name: p.Scn, Preemptions: bound, DelayBounding: delay, Horizon: 4000, MaxExec: maxExec, NShards: 1,
-		Expired: r.Expired, Reset: c03reset}
+func c03run(r *verifkit.Result, p c03param, bound int, mode string, maxExec int64) {
+	cfg := vsched.Config{Name: p.Scn, Preemptions: bound, DelayBounding: mode == "delay", Horizon: 4000, MaxExec: maxExec, NShards: 1,
+		Expired: r.Expired, Reset: c03reset, Full: mode == "full"}
 	cfg.Check = func(x *vsched.Exec) string {
 		switch x.Outcome() {
 		case "deadlock":
@@ -713,6 +713,8 @@ func c03run(r *verifkit.Result, p c03param, bound int, delay bool, maxExec int64
 	r.Trans(st.Points)
 	r.Replayed(st.ReplaysChecked)
 	r.Count("leaked_threads", st.LeakedThreads)
+	r.Count("hb_states_"+mode, st.States)
+	r.Count("executions_"+mode, st.Executions)
 	r.Count("scenario_params", 1)
 	for h := range st.TraceHashes {
 		r.StateH(h)
@@ -721,8 +723,8 @@ func c03run(r *verifkit.Result, p c03param, bound int, delay bool, maxExec int64
 		r.Cap(fmt.Sprintf("execution cap (%d) or horizon reached in scenario %s", maxExec, p.Scn))
 	}
 	if os.Getenv("VERIF_C03_STATS") != "" {
-		fmt.Printf("STATS %s parts=%v perm=%v parts2=%v w=%d size=%d: exec=%d states=%d pruned=%d points=%d maxpoints=%d threads=%d rounds=%d capped=%v nconf=%d\n",
-			p.Scn, p.Parts, p.Perm, p.Parts2, p.Workers, p.Size, st.Executions, st.States, st.Pruned, st.Points, st.MaxPoints, st.MaxThreads, st.Rounds, st.Capped, len(st.ConflictSites))
+		fmt.Printf("STATS %s parts=%v perm=%v parts2=%v w=%d size=%d: exec=%d states=%d pruned=%d points=%d maxpoints=%d threads=%d rounds=%d capped=%v nconf=%d outcomes=%v\n",
+			p.Scn, p.Parts, p.Perm, p.Parts2, p.Workers, p.Size, st.Executions, st.States, st.Pruned, st.Points, st.MaxPoints, st.MaxThreads, st.Rounds, st.Capped, len(st.ConflictSites), st.Outcomes)
 	}
 	for o, n := range st.Outcomes {
 		r.Count("outcome_"+o, n)
@@ -777,43 +779,69 @@ func TestVerifC03A(t *testing.T) {
 		return
 	}
 
-	// jobs: (parameter, deviation bound). Delay bounding: the default scheduler continues the running
-	// thread (lowest-id enabled thread when it blocks); every other choice costs one deviation.
+	// jobs: (parameter, exploration mode, bound).
+	//  full   : ALL interleavings up to Mazurkiewicz-trace equivalence (sleep sets + happens-before
+	//           state caching), unbounded — affordable for streams of <= 1 (thorough: 2) batches
+	//  delay  : delay bounding (default scheduler continues the running thread, lowest-id enabled
+	//           thread when it blocks; every other choice costs one deviation) for every parameter
+	//  preempt: CHESS preemption bounding (switches at blocking points are free)
 	type job struct {
 		p       c03param
+		mode    string
 		bound   int
 		maxExec int64
 	}
 	params := c03params(verifkit.Thorough())
-	small := func(p c03param) bool { return len(p.Parts) <= 2 && c03total(p.Parts) <= 2 && p.Workers <= 2 }
+	nb := func(p c03param) int { return len(p.Parts) + len(p.Parts2) }
 	var jobs []job
 	if !verifkit.Thorough() {
 		for _, p := range params {
-			jobs = append(jobs, job{p, 1, 20000})
-		}
-		for _, p := range params {
-			if small(p) {
-				jobs = append(jobs, job{p, 2, 60000})
+			light := map[string]bool{"sort": true, "worker-keep": true, "worker-drop": true, "worker-empty": true, "iworker": true,
+				"condworker": true, "rebatch": true, "filterempty": true, "concat": true, "completefile": true, "batchover": true, "merge": true}
+			if light[p.Scn] && len(p.Parts) <= 1 && len(p.Parts2) <= 1 && p.Workers <= 2 {
+				jobs = append(jobs, job{p, "full", -1, 60000})
 			}
 		}
-		r.Bound("deviation_bound", "1 for every scenario parameter, 2 for those with <= 2 batches and <= 2 records")
+		for _, p := range params {
+			jobs = append(jobs, job{p, "delay", 1, 20000})
+		}
+		r.Bound("exploration", "full (unbounded, sleep sets + HB cache) for streams of <= 1 batch; delay bound 1 for every scenario parameter")
 	} else {
 		for _, p := range params {
-			jobs = append(jobs, job{p, 2, 100000})
-		}
-		for _, p := range params {
-			if small(p) {
-				jobs = append(jobs, job{p, 3, 400000})
+			if len(p.Parts) <= 2 && nb(p) <= 3 {
+				jobs = append(jobs, job{p, "full", -1, 400000})
 			}
 		}
-		r.Bound("deviation_bound", "2 for every scenario parameter, 3 for those with <= 2 batches and <= 2 records")
+		for _, p := range params {
+			jobs = append(jobs, job{p, "delay", 2, 100000})
+		}
+		for _, p := range params {
+			if len(p.Parts) <= 2 {
+				jobs = append(jobs, job{p, "preempt", 0, 100000})
+			}
+		}
+		r.Bound("exploration", "full (unbounded) for streams of <= 2 batches; delay bound 2 for every scenario parameter; preemption bound 0 for <= 2 batches")
 	}
 	if b := os.Getenv("VERIF_C03_BOUND"); b != "" {
 		var bound int
 		fmt.Sscanf(b, "%d", &bound)
 		jobs = jobs[:0]
+		var capN int64 = 4000
+		if c := os.Getenv("VERIF_C03_CAP"); c != "" {
+			fmt.Sscanf(c, "%d", &capN)
+		}
+		mode := "delay"
+		if os.Getenv("VERIF_C03_MODE") == "preempt" {
+			mode = "preempt"
+		}
+		if bound < 0 {
+			mode = "full"
+		}
 		for _, p := range params {
-			jobs = append(jobs, job{p, bound, 4000})
+			if f := os.Getenv("VERIF_C03_ONLY"); f != "" && !(strings.Contains(f, p.Scn) && len(p.Parts) <= 1) {
+				continue
+			}
+			jobs = append(jobs, job{p, mode, bound, capN})
 		}
 	}
 	r.Bound("scenario_parameters", len(params))
@@ -828,7 +856,8 @@ func TestVerifC03A(t *testing.T) {
 		if k < 3 {
 			r.Sample(j.p)
 		}
-		c03run(r, j.p, j.bound, os.Getenv("VERIF_C03_MODE") != "preempt", j.maxExec)
+		c03run(r, j.p, j.bound, j.mode, j.maxExec)
+		r.Count("jobs_"+j.mode, 1)
 	}
 	r.RequireNonVacuous("outcome_completed")
 }
